@@ -29,6 +29,8 @@ META = {
     'exhaustive': True,
 }
 
+META['explanation'] += ' ' + 'R8: no function on the parse side reaches itself through calls. R9: evaluation steps of the string array parser grow by equal amounts for equal growth of the input (items, separator runs, blank runs).'
+
 
 def contained_classes(ctx, c):
     """classes whose parser can be entered while parsing c (one level)"""
